@@ -299,6 +299,7 @@ class Lexer:
         if carry:
             self.path_stack[-1].path.append(self.source[self.start : self.pos])
             self.start = self.pos
+            self.path_stack[-1].stop = self.pos
 
         while True:
             c = self.next()
@@ -309,6 +310,8 @@ class Lexer:
             if c == ".":
                 if self.peek() == ".":  # probably a range expression delimiter
                     self.backup()
+                    if len(self.path_stack) > 1:
+                        self.error("unexpected range delimiter in a bracketed path")
                     return
 
                 self.ignore()
@@ -392,6 +395,7 @@ class Lexer:
                     )
                     self.pos += match.end() - match.start()
                     self.start = self.pos
+                    self.path_stack[-1].stop = self.pos
                 elif self.peek() == "]":
                     self.error("empty bracketed segment")
                 else:
